@@ -408,6 +408,28 @@ func runC20(c *Ctx) {
 				}
 			}
 		}
+		// every file the walk collected is parsed: no way round the file loop misses ParseFile
+		{
+			badF, nparse := "", 0
+			var where []string
+			for n, in := range g.Ins {
+				pc, ok := in.(*ssa.Call)
+				if !ok || !extFn(pc.Common(), "go/parser", "ParseFile") {
+					continue
+				}
+				nparse++
+				if p, inLoop := g.loopBypass(n); !inLoop {
+					badF = "ParseFile is not called in a loop over the collected files"
+				} else if p != nil {
+					badF = "the file loop can go on to the next file without parsing this one: annotations in it are not found"
+					where = g.where(p, 8)
+				}
+			}
+			if nparse != 1 && badF == "" {
+				badF = fmt.Sprintf("expected one ParseFile call in FindRedirects, found %d", nparse)
+			}
+			c.check(badF == "", "C20.R2", "every-file-parsed "+m.fnName(find), "every collected file reaches parser.ParseFile", badF, where...)
+		}
 		c.check(bad == "", "C20.R2", "one-entry-per-annotation "+m.fnName(find), "every directive line reaches the append; the comment loop then continues with the next line", bad, g.posOf(an))
 	}
 
@@ -676,8 +698,15 @@ func runC20(c *Ctx) {
 		if ok, _ := gc.MustPassBefore(dn, func(n int) bool { return n == sn }); !ok {
 			bad = "the destination address is written before the source address (the boot code reads src, dst pairs)"
 		}
-		h, _ := loopOf(gc.Ins[sn].Block())
-		h2, _ := loopOf(gc.Ins[dn].Block())
+		// (the innermost loop around each write, also when the write sits in a
+		// spliced private helper)
+		var h, h2 *ssa.BasicBlock
+		if ls := gc.loopsAround(sn); len(ls) > 0 {
+			h = ls[0]
+		}
+		if ls := gc.loopsAround(dn); len(ls) > 0 {
+			h2 = ls[0]
+		}
 		if h == nil || h != h2 {
 			bad = "source and destination are not written by the same loop over the entries"
 		} else {
